@@ -111,7 +111,7 @@ def _portfolio_job(job):
     return verdict, backend, model, time.time() - t0
 
 
-def run_tasks(tasks, procs=None):
+def run_tasks(tasks, procs=None, retry=True):
     procs = procs or int(os.environ.get("PYVC_PROCS", "16"))
     ctx = mp.get_context("fork")
     if procs <= 1 or len(tasks) <= 1:
@@ -141,6 +141,28 @@ def run_tasks(tasks, procs=None):
                 x["detail"] = "%s says sat but gave no model" % backend
             else:
                 x["detail"] = "all back ends: unknown/timeout"
+    # phase 3: one retry of tasks that still have an undecided obligation (solver
+    # verdicts can flip under load); a fresh process, fewer workers, larger budget
+    if retry:
+        again = [i for i, r in enumerate(res)
+                 if any(x["verdict"] == "unknown" for x in r.get("results", []))]
+        if again and len(again) <= 24:
+            os.environ["PYVC_BUDGET_SCALE"] = "3"
+            try:
+                res2 = run_tasks([res[i]["task"] for i in again], procs=max(1, procs // 2),
+                                 retry=False)
+            finally:
+                os.environ.pop("PYVC_BUDGET_SCALE", None)
+            for i, r2 in zip(again, res2):
+                if r2.get("status") != "ok":
+                    continue
+                names = [x["name"] for x in r2["results"]]
+                new = {x["name"]: x for x in r2["results"] if names.count(x["name"]) == 1}
+                for x in res[i]["results"]:
+                    y = new.get(x["name"])
+                    if x["verdict"] == "unknown" and y and y["verdict"] in ("proved", "refuted"):
+                        y["detail"] = (y.get("detail") or "") + " (decided on retry)"
+                        x.update(y)
     return res
 
 
